@@ -20,6 +20,13 @@ import (
 
 func init() {
 	register(&Workload{Name: "opsim", Run: runOpsimWL})
+	plans["C01"] = append(plans["C01"],
+		Part{WL: "opsim", Cfg: "prop=C01", Quick: 250, Thor: 6000},
+		Part{WL: "opsim", Cfg: "prop=C01,t=T1", Quick: 100, Thor: 3000})
+	plans["C02"] = []Part{
+		{WL: "opsim", Cfg: "prop=C02", Quick: 300, Thor: 8000},
+		{WL: "opsim", Cfg: "prop=C02,t=T1", Quick: 150, Thor: 4000},
+	}
 	plans["C09"] = []Part{
 		{WL: "opsim", Cfg: "prop=C09", Quick: 400, Thor: 8000},
 		{WL: "opsim", Cfg: "prop=C09,t=T1", Quick: 150, Thor: 3000},
@@ -499,6 +506,7 @@ func runOpsimWL(e *Env) {
 		e.Out.Infra = "operator assembly failed: " + o.BootErr.Error()
 	}
 	panicsToViolations(e, prop)
+	lockStarvation(e, prop)
 	e.Out.NonTrivial = s.Preempts > 0 || opts.Faults || len(o.Execs) > 2
 	if o.Op != nil && o.BootErr == nil && len(s.Panics) == 0 {
 		r.indexMonitors()
